@@ -20,7 +20,7 @@ RULE = ("seeded random construction programs (1-40 steps, 1-8 modes) over bs(Rx/
         "and at least one of {loss before a later component, reversed-order H beam splitter, "
         "boundary value}")
 MANDATORY = ["bs_after_loss", "ps_after_loss", "swaps_after_loss", "unitary_after_loss",
-             "loss_after_loss", "barrier_after_loss", "reversed_H_bs", "nonadjacent_bs", "large_mode_count", "group_shared_then_unpacked_and_extended"]
+             "loss_after_loss", "barrier_after_loss", "reversed_H_bs", "nonadjacent_bs", "large_mode_count", "group_shared_then_unpacked_and_extended", "malformed_component_rejected"]
 DECIDING = ["u_full_postconditions", "mon.cmp"]
 BUDGET = {"quick": 25, "thorough": 420}
 ASSUMPTIONS = ["own Glynn permanent and wire model are the reference (written from the documented "
@@ -55,6 +55,9 @@ def key_of(log):
         else:
             out.append((k,))
     return tuple(out)
+
+
+_ = None
 
 
 def classify(log, ctx):
@@ -170,6 +173,30 @@ def run(ctx):
         check_at = set(rng.choice(steps, size=min(steps, 2), replace=False).tolist()) | {steps - 1}
         aborted = False
         for i in range(steps):
+            if rng.random() < 0.08:
+                # an out-of-range / malformed component: it is either rejected (nothing happens) or, if some
+                # version of the library accepts it, the post-conditions below still have to hold for the result
+                try:
+                    hk = int(rng.integers(5))
+                    if hk == 0 and n >= 2:
+                        a_, b_ = sorted(rng.choice(n, size=2, replace=False).tolist())
+                        bad = {a_: b_, b_: b_} if rng.random() < 0.5 else {a_: b_, b_: a_, (b_ + 1) % n: a_}
+                        c.mode_swaps(bad)
+                    elif hk == 1 and n >= 2:
+                        c.bs(0, 1, float(rng.choice([1.0000001, -1e-9, 2.0])))
+                    elif hk == 2:
+                        c.loss(int(rng.integers(n)), float(rng.choice([1.0000001, -1e-9])))
+                    elif hk == 3 and n >= 2:
+                        m_ = haar(np.random.default_rng(int(rng.integers(1 << 30))), 2)
+                        m_[0, 0] *= 1.001
+                        c.add(lw.Unitary(m_), 0)
+                    elif n >= 2:
+                        c.bs(1, 1)
+                    ctx.count("malformed_component_accepted")
+                    log.append(["malformed_component_accepted", hk])
+                except Exception:  # noqa: BLE001
+                    ctx.bucket("malformed_component_rejected")
+                circmon.drain()
             try:
                 b.primitive(c, log, n)
             except Exception as e:  # noqa: BLE001 - every generated call is legal
